@@ -164,36 +164,50 @@ def _join(subs):
     return 'Union<' + ', '.join(sorted(subs)) + '>'
 
 
-def _union_members(inferred: str):
-    if not (inferred.startswith('Union<') and inferred.endswith('>')):
-        return None
-    out, depth, cur = [], 0, ''
-    for ch in inferred[6:-1]:
+def _parse_type(text: str):
+    """'dict<str, Union<int, None>>' -> ('dict', [('str', []), ('Union', [('int', []), ('None', [])])])."""
+    text = text.strip()
+    if '<' not in text:
+        return (text, [])
+    name, rest = text.split('<', 1)
+    rest = rest[:-1] if rest.endswith('>') else rest
+    args, depth, cur = [], 0, ''
+    for ch in rest:
         if ch == '<':
             depth += 1
         elif ch == '>':
             depth -= 1
         if ch == ',' and depth == 0:
-            out.append(cur.strip())
+            args.append(cur)
             cur = ''
         else:
             cur += ch
-    out.append(cur.strip())
-    return out
+    if cur.strip():
+        args.append(cur)
+    return (name.strip(), [_parse_type(a) for a in args])
+
+
+def _type_matches(inf, run) -> bool:
+    """Structural comparison: a Union is a set of members (the inferred one may have more members than the values observed);
+    '?' in the run-time description (empty container) matches anything; 'A|B' (a user class and its bases) matches either name."""
+    iname, iargs = inf
+    rname, rargs = run
+    if rname == '?':
+        return True
+    if iname == 'Union':
+        runs = rargs if rname == 'Union' else [run]
+        return all(any(_type_matches(m, r) for m in iargs) for r in runs)
+    if rname == 'Union':
+        return False
+    if iname not in rname.split('|'):
+        return False
+    if len(iargs) != len(rargs):
+        return not rargs and not iargs
+    return all(_type_matches(x, y) for x, y in zip(iargs, rargs))
 
 
 def matches(inferred: str, runtime: str) -> bool:
-    """inferred == runtime, where '?' in the runtime description (empty container) matches any type argument;
-    an inferred Union admits the values of each of its members."""
-    members = _union_members(inferred)
-    if members is not None and not runtime.startswith('Union<'):
-        return any(matches(m, runtime) for m in members)
-    if '|' in runtime and '<' not in runtime:
-        return inferred in runtime.split('|')
-    if '?' not in runtime:
-        return inferred == runtime
-    pat = re.escape(runtime).replace(r'\?', r'.+')
-    return re.fullmatch(pat, inferred) is not None
+    return _type_matches(_parse_type(inferred), _parse_type(runtime))
 
 
 def run_recorded(source: str, entries, extra=None):
@@ -473,6 +487,10 @@ def cross_module_programs():
         add(f'fields:{a}-{b}', f'c = {a}()\nd = {b}()\nv = c.r\nw = d.r\ns = c.area()\nt = d.area()')
         add(f'lists:{a}-{b}', f'cs = [{a}()]\nds = [{b}()]\nc0 = cs[0]\nd0 = ds[0]\nv = c0.r\nw = d0.r')
         add(f'dict:{a}-{b}', "m = {'a': " + a + "()}\nn = {'b': " + b + "()}\nv = m['a'].r\nw = n['b'].r")
+    # heterogeneous literals, several per module (each one needs its own Union)
+    add('hetero-list:int-none', 'xs = [1, None]\nys = [1.5, None]\nv = xs[0]\nw = ys[0]')
+    add('hetero-list:str-int', "xs = ['a', 1]\nys = [p, 2]\nv = xs[0]\nw = ys[1]")
+    add('hetero-dict', "d = {'a': 1, 'b': None}\nv = d['a']")
     # same class and arity, other type arguments
     for tag, x, y in [('list', '[1]', "['a']"), ('dict', "{'k': 1}", "{'k': 'v'}"), ('tuple', "(1, 's')", "('s', 1)"), ('nested', '[[1]]', "[['a']]"), ('dict-key', "{1: 'a'}", "{'a': 'a'}")]:
         add(f'same-class-ternary:{tag}', f'x = {x} if p else {y}\ny = x')
